@@ -818,7 +818,16 @@ def check_vmf(vmf, opts: dict) -> list[tuple[str, str, dict]]:
             for k, i in enumerate(order):
                 al2[i] = after['entities'][k]
             cands.append((n_diffs(al2), 'hidden-before-visible', al2))
-        best = min(cands, key=lambda c: c[0])
+        # A re-ordering is accepted as the explanation only when it explains *everything* (no difference is left), or
+        # when the IDs were preserved (then the alignment by ID is ground truth whatever else differs).  Picking the
+        # alignment with the fewest differences is wrong: when one entity lost a lot of data (say 100 displacement
+        # vertices) pairing it with a different entity can leave fewer differing paths than the true pairing.
+        best = cands[0]
+        for c in cands[1:]:
+            if c[0] == 0 or (c[1] and not ignore and c[2] is not cands[0][2] and c[0] <= cands[0][0]
+                             and sorted(ids_b) == sorted(ids_a) and ids_b != ids_a):
+                best = c
+                break
         if best[1]:
             out.append((f'order:entities:{best[1]}', f'VMF.entities changed order after export->parse: ids {ids_b} became {ids_a}',
                         {'before': ids_b, 'after': ids_a}))
